@@ -20,6 +20,8 @@ TEMPLATES = {
     'trailing_blanks': '2000-01-01 open Assets:Foo   \n    foo: 1  \n    bar: "x"\t\n2000-01-02 close Assets:Foo  \n',
     'no_final_newline': '2000-01-01 open Assets:A\n2000-01-02 note Assets:A "n" #a ^b',
     'custom': '2000-01-01 custom "t"  1+2 USD   TRUE\n\n\n* ignored line\noption "a"   "b"\n',
+    # neighbours written without a blank, some across the zero-width placeholder of a repeated field
+    'tight': '2000-01-01 *"p""n"#t^l;ic\n  Assets:A  1USD{2EUR}@3GBP\n2000-01-02 open Assets:A"STRICT"\n2000-01-03 note Assets:A "n"#a\n',
 }
 
 
@@ -133,6 +135,13 @@ def make_spacing(tname, side, klen, facet, twin=False, lf=None):
             if new:
                 back = m.spacing_before if side == 'before' else m.spacing_after
                 check(back == new, what, 'reads back as', R(back))
+            # after the assignment every model still reads exactly the run of blanks adjacent to it, from either side
+            for p2, m2 in ms:
+                for sd in ('before', 'after'):
+                    i2 = after.index[id(m2.first_token if sd == 'before' else m2.last_token)]
+                    want = ''.join(after.texts[r] for r in oracle_run(after, i2, -1 if sd == 'before' else 1))
+                    got2 = m2.spacing_before if sd == 'before' else m2.spacing_after
+                    check(got2 == want, what, 'afterwards', p2, 'reads spacing_' + sd, R(got2), 'but the adjacent run of blanks is', R(want))
 
     return 'spacing_%s_%s_%s_k%d%s%s' % (facet, tname, side, klen, ('_lf%d' % lf) if lf else '', '_twin' if twin else ''), cell
 
@@ -231,7 +240,7 @@ for _t in TEMPLATES:
                  'template %s: every model/token x spacing_%s x every string of %d units from {SP,TAB,LF,CRLF,CRCRLF}' % (_t, _side, _k), cost=5 ** _k * 10)
             _reg(make_spacing(_t, _side, _k, 'tree'), {'C05': Q if _k == 1 else T}, 900, 'spacing/tree',
                  'template %s: tree invariant after spacing_%s = string of %d units' % (_t, _side, _k), cost=5 ** _k * 10)
-for _t in ('two_dirs', 'txn', 'trailing_blanks', 'custom'):
+for _t in ('two_dirs', 'txn', 'trailing_blanks', 'custom'):      # block layouts
     for _side in ('before', 'after'):
         for _k in (0, 1):
             for _lf in (2, 4, 5):
@@ -255,7 +264,7 @@ ENCODES = ['autobean_refactor/models/internal/spacing_accessors.py: SpacingAcces
 STUBS = ['text cells: spacing_accessors._SPACING_GROUP_RE is replaced by symx.symre.SymRegex interpreting the SAME pattern and flags (findall with re scanning rules; validated against re), so the assigned string stays symbolic',
          'blk cells: the parsed store is re-partitioned (docenv.reblock) into a legal block layout chosen by symbolic selectors',
          'model ordinal, side and spacing units are symbolic selectors enumerated exhaustively by the solver; the accessor calls run natively on the concrete document of each path']
-OUTSIDE = ['templates other than the 6 listed; spacing strings longer than 3 units (selector cells) / 5 code points (text cells); lone CR (outside the property\'s domain "LF and CRLF")']
+OUTSIDE = ['templates other than the 7 listed; spacing strings longer than 3 units (selector cells) / 5 code points (text cells); lone CR (outside the property\'s domain "LF and CRLF")']
 
 
 def selftest():
